@@ -355,26 +355,59 @@ fn plan(quick: bool) -> Plan {
     }
 }
 
-/// the random stream: seeded random graphs followed by long rings (deterministic in the seed, so
-/// that workers and the parent see the same list)
-fn random_stream(quick: bool, seed: u64) -> (Vec<Case>, usize) {
-    let mut rng = Rng::new(seed);
-    let n_random = if quick { 6000 } else { 600_000 };
-    let mut randoms: Vec<Case> = (0..n_random).map(|_| random_case(&mut rng)).collect();
-    // long rings (beyond any fixed depth someone might cut a walk at), alone and entered from a tail
-    let mut ring_sizes: Vec<usize> = vec![65, 100, 129];
-    if !quick {
-        for _ in 0..12 {
-            ring_sizes.push(66 + rng.below(260));
+/// The random stream: seeded random graphs followed by long rings, produced one at a time (the
+/// thorough stream is too large to hold; workers and the parent regenerate what they need).
+struct RandomGen {
+    quick: bool,
+    seed: u64,
+    rng: Rng,
+    /// index of the random graph `rng` produces next
+    next: u64,
+    n_random: u64,
+    /// (extends?, ring size, tail)
+    rings: Vec<(bool, usize, usize)>,
+}
+
+impl RandomGen {
+    fn new(quick: bool, seed: u64) -> Self {
+        let n_random = if quick { 6000 } else { 600_000 };
+        // long rings (beyond any fixed depth someone might cut a walk at), alone and entered from a tail
+        let mut ring_sizes: Vec<usize> = vec![65, 100, 129];
+        if !quick {
+            let mut r = Rng::new(seed ^ 0x5151_5151);
+            for _ in 0..12 {
+                ring_sizes.push(66 + r.below(260));
+            }
+        }
+        let mut rings = Vec::new();
+        for &n in &ring_sizes {
+            for extends in [false, true] {
+                rings.push((extends, n, 0));
+                rings.push((extends, n, 3));
+            }
+        }
+        RandomGen { quick, seed, rng: Rng::new(seed), next: 0, n_random, rings }
+    }
+    fn total(&self) -> u64 {
+        self.n_random + self.rings.len() as u64
+    }
+    /// the `idx`-th set of the stream (cheapest when asked in increasing order)
+    fn get(&mut self, idx: u64) -> Case {
+        if idx >= self.n_random {
+            let (e, n, t) = self.rings[(idx - self.n_random) as usize];
+            return ring_case(e, n, t);
+        }
+        if idx < self.next {
+            *self = RandomGen::new(self.quick, self.seed);
+        }
+        loop {
+            let c = random_case(&mut self.rng);
+            self.next += 1;
+            if self.next == idx + 1 {
+                return c;
+            }
         }
     }
-    for &n in &ring_sizes {
-        for extends in [false, true] {
-            randoms.push(ring_case(extends, n, 0));
-            randoms.push(ring_case(extends, n, 3));
-        }
-    }
-    (randoms, ring_sizes.len() * 4)
 }
 
 /// ends the worker when one set takes longer than `secs` (a hang is an observation about that set)
@@ -396,10 +429,10 @@ fn start_watchdog(progress: std::sync::Arc<std::sync::atomic::AtomicU64>, secs: 
 /// the parent.  Before each stage it announces `at <idx> <stage>` so that a stack overflow, abort
 /// or hang names its culprit; one line per finished set:
 /// `idx \t registration \t renders \t history`.
-fn child_stream(kind: &str, quick: bool, seed: u64, start: u64, stride: u64) {
+fn child_stream(kind: &str, quick: bool, seed: u64, start: u64, stride: u64, hi: u64) {
     let p = plan(quick);
-    let randoms = if kind == "rnd" { random_stream(quick, seed).0 } else { Vec::new() };
-    let total = if kind == "rnd" { randoms.len() as u64 } else { p.total };
+    let mut rgen = RandomGen::new(quick, seed);
+    let total = (if kind == "rnd" { rgen.total() } else { p.total }).min(hi);
     let progress = std::sync::Arc::new(std::sync::atomic::AtomicU64::new(0));
     start_watchdog(progress.clone(), 20);
     let t0 = Instant::now();
@@ -408,7 +441,7 @@ fn child_stream(kind: &str, quick: bool, seed: u64, start: u64, stride: u64) {
     let mut idx = start;
     while idx < total {
         progress.store(t0.elapsed().as_millis() as u64, std::sync::atomic::Ordering::Relaxed);
-        let c = if kind == "rnd" { randoms[idx as usize].clone() } else { exhaustive_case(p.n, idx, seed, p.max_edges, &p.sets) };
+        let c = if kind == "rnd" { rgen.get(idx) } else { exhaustive_case(p.n, idx, seed, p.max_edges, &p.sets) };
         writeln!(w, "at {idx} reg").unwrap();
         w.flush().unwrap();
         let (imp, tera) = register(&c);
@@ -572,14 +605,14 @@ struct StreamOut {
 }
 
 /// Run a stream in `threads` worker processes; a worker that dies is restarted after its culprit.
-fn run_stream(kind: &str, quick: bool, seed: u64, threads: usize) -> StreamOut {
+fn run_stream(kind: &str, quick: bool, seed: u64, threads: usize, lo: u64, hi: u64) -> StreamOut {
     let per_worker: Vec<StreamOut> = std::thread::scope(|s| {
         let hs: Vec<_> = (0..threads)
             .map(|k| {
                 s.spawn(move || {
                     let mut out = StreamOut::default();
-                    let mut start = k as u64;
-                    loop {
+                    let mut start = lo + k as u64;
+                    while start < hi {
                         let a: Vec<String> = vec![
                             "--child".into(),
                             kind.to_string(),
@@ -587,6 +620,7 @@ fn run_stream(kind: &str, quick: bool, seed: u64, threads: usize) -> StreamOut {
                             seed.to_string(),
                             start.to_string(),
                             threads.to_string(),
+                            hi.to_string(),
                         ];
                         let (status, text) = run_child(&a, Duration::from_secs(if quick { 240 } else { 3000 }));
                         let mut last_at: Option<(u64, String)> = None;
@@ -913,7 +947,7 @@ fn main() {
     let args: Vec<String> = std::env::args().collect();
     if let Some(i) = args.iter().position(|a| a == "--child") {
         match args[i + 1].as_str() {
-            k @ ("exh" | "rnd") => child_stream(k, args[i + 2] == "quick", args[i + 3].parse().unwrap(), args[i + 4].parse().unwrap(), args[i + 5].parse().unwrap()),
+            k @ ("exh" | "rnd") => child_stream(k, args[i + 2] == "quick", args[i + 3].parse().unwrap(), args[i + 4].parse().unwrap(), args[i + 5].parse().unwrap(), args.get(i + 6).and_then(|a| a.parse().ok()).unwrap_or(u64::MAX)),
             "render" => child_render(&args[i + 2], &args[i + 3]),
             "reg" => child_reg(&args[i + 2], None),
             "reg2" => child_reg(&args[i + 2], Some(args[i + 3].parse().unwrap())),
@@ -955,71 +989,49 @@ fn main() {
     let quick = env.quick();
     let p = plan(quick);
 
-    // ---- 1. + 2. the exhaustive enumeration and the random stream, both in worker processes
+    // ---- 1. + 2. the exhaustive enumeration and the random stream, both in worker processes and
+    //      in segments (the thorough streams have millions of sets)
     let t0 = Instant::now();
-    let exh = run_stream("exh", quick, env.seed, threads);
-    report.notes.push(format!("exhaustive enumeration: {} sets over {} templates in {:.1} s", p.total, p.n, t0.elapsed().as_secs_f64()));
-    let (randoms, n_rings) = random_stream(quick, env.seed);
-    report.count_n("long-rings", n_rings as u64);
-    let rnd = run_stream("rnd", quick, env.seed, threads);
-    report.exhaustive = exh.rows.len() as u64 == p.total;
-    report.notes.extend(exh.notes.iter().cloned());
-    report.notes.extend(rnd.notes.iter().cloned());
-    let case_of = |is_exh: bool, idx: u64| -> Case {
-        if is_exh { exhaustive_case(p.n, idx, env.seed, p.max_edges, &p.sets) } else { randoms[idx as usize].clone() }
-    };
-
-    // culprits: sets on which a worker died or hung
-    let mut n_culprits = 0u64;
-    for (is_exh, o) in [(true, &exh), (false, &rnd)] {
-        for (k, (idx, stage, status)) in o.culprits.iter().enumerate() {
-            n_culprits += 1;
-            report.count(&format!("worker-death.{stage}"));
-            if report.violations.len() >= 6 {
-                continue;
-            }
-            let c = case_of(is_exh, *idx);
-            let n = c.tpls.len();
-            // shrink (in child processes) while the engine keeps dying; only the first few, a
-            // stack overflow per probe is slow
-            let dies = |d: &Case| -> bool {
-                match stage.as_str() {
-                    "reg" => safe_register(d).starts_with("died"),
-                    "hist" => (0..d.tpls.len()).any(|x| safe_two_step(d, x).is_some_and(|r| r.starts_with("died"))),
-                    _ => false,
-                }
-            };
-            let small = if k < 2 && stage != "render" && dies(&c) { shrink(c.clone(), &dies) } else { c.clone() };
-            let imp = if stage == "reg" { format!("died {status}") } else { safe_register(&small) };
-            let f = graph_facts(&small);
-            let summary = match stage.as_str() {
-                "reg" => format!(
-                    "registration must end in Ok or Err ({}): the engine did not return — worker {status} while registering set #{idx} ({n} templates; graph: {f:?})",
-                    if f.include_cycle { "here Err(CircularInclude)" } else if f.extends_cycle { "here Err(CircularExtend)" } else { "every shape of graph" }
-                ),
-                "hist" => format!("registration did not return — worker {status} while re-registering one template of set #{idx} last (graph: {f:?})"),
-                _ => format!("an accepted set does not render finitely: worker {status} on set #{idx}"),
-            };
-            report.violation("property", summary, replay_json(&small, &imp, serde_json::json!({"worker": status, "stage": stage, "stream": if is_exh { "exhaustive" } else { "random" }, "index": idx})));
-        }
+    let mut rgen = RandomGen::new(quick, env.seed);
+    let rnd_total = rgen.total();
+    report.count_n("long-rings", rgen.rings.len() as u64);
+    let mut segments: Vec<(bool, u64, u64)> = Vec::new();
+    let mut lo = 0u64;
+    while lo < p.total {
+        segments.push((true, lo, (lo + 1_000_000).min(p.total)));
+        lo += 1_000_000;
     }
-    report.oracle_failures += n_culprits;
-
+    let mut lo = 0u64;
+    while lo < rnd_total {
+        segments.push((false, lo, (lo + 200_000).min(rnd_total)));
+        lo += 200_000;
+    }
+    let case_of = |rgen: &mut RandomGen, is_exh: bool, idx: u64| -> Case {
+        if is_exh { exhaustive_case(p.n, idx, env.seed, p.max_edges, &p.sets) } else { rgen.get(idx) }
+    };
+    // (from the exhaustive stream?, idx, stage, worker status)
+    let mut culprits: Vec<(bool, u64, String, String)> = Vec::new();
+    let mut n_exh = 0usize;
     // (index of the set, template replaced last, answer of the replacing call)
     let mut hist_fails: Vec<(Case, usize, String, String)> = Vec::new();
     let mut n_hist_fails = 0u64;
-    let n_exh = exh.rows.len();
-    // every finished set of both streams: (from the exhaustive stream?, row)
-    let all_rows: Vec<(bool, &(u64, String, String, String))> =
-        exh.rows.iter().map(|r| (true, r)).chain(rnd.rows.iter().map(|r| (false, r))).collect();
-
-    // ---- model answers and oracles, in waves (the thorough enumeration has millions of sets)
     let mut distinct: std::collections::HashSet<u64> = std::collections::HashSet::new();
     // (global index, case, implementation, model answer)
     let mut mismatches: Vec<(usize, Case, String, String)> = Vec::new();
     let mut oracle_fails: Vec<(Case, String, String)> = Vec::new(); // (case, implementation, description)
     let mut n_oracle_fails = 0u64;
     let mut model_ok = true;
+    let mut done_before = 0usize;
+    for (seg_exh, seg_lo, seg_hi) in segments {
+    let out = run_stream(if seg_exh { "exh" } else { "rnd" }, quick, env.seed, threads, seg_lo, seg_hi);
+    report.notes.extend(out.notes.iter().cloned());
+    culprits.extend(out.culprits.iter().map(|(i, st, s)| (seg_exh, *i, st.clone(), s.clone())));
+    if seg_exh {
+        n_exh += out.rows.len();
+    }
+    let all_rows: Vec<(bool, &(u64, String, String, String))> = out.rows.iter().map(|r| (seg_exh, r)).collect();
+
+    // ---- model answers and oracles, in waves
     let wave = 200_000usize;
     let total_cases = all_rows.len();
     let mut lo = 0usize;
@@ -1028,7 +1040,7 @@ fn main() {
         let cases: Vec<(Case, String, String)> = (lo..hi)
             .map(|i| {
                 let (is_exh, (idx, imp, renders, hist)) = &all_rows[i];
-                let c = case_of(*is_exh, *idx);
+                let c = case_of(&mut rgen, *is_exh, *idx);
                 let (h, x) = match hist.split_once('\u{1}') {
                     Some((h, x)) => (h, x.parse().unwrap_or(0)),
                     None => (hist.as_str(), if *is_exh { (*idx % p.n as u64) as usize } else { c.tpls.len() / 2 }),
@@ -1053,7 +1065,7 @@ fn main() {
         let reqs: Vec<String> = cases
             .iter()
             .enumerate()
-            .map(|(k, (c, _, _))| format!("fin {} {} {}", (lo + k) % 3, ((lo + k) / 3) % 3, set_wire(&c.prefixes, &c.tpls)))
+            .map(|(k, (c, _, _))| format!("fin {} {} {}", (done_before + lo + k) % 3, ((done_before + lo + k) / 3) % 3, set_wire(&c.prefixes, &c.tpls)))
             .collect();
         let model = if model_ok {
             match driver::run_batch_parallel(&exe, &reqs, threads) {
@@ -1069,10 +1081,10 @@ fn main() {
             Vec::new()
         };
         for (k, (c, imp, renders)) in cases.iter().enumerate() {
-            let i = lo + k;
+            let i = done_before + lo + k;
             report.evaluations += 1;
             let class = if imp.starts_with("ok") { "accepted".to_string() } else if imp.starts_with("panic") { "panic".into() } else { format!("rejected.{}", err_class(imp)) };
-            report.count(&format!("{}.{}", if i < n_exh { "exhaustive" } else { "random" }, class));
+            report.count(&format!("{}.{}", if seg_exh { "exhaustive" } else { "random" }, class));
             report.count(&format!("templates.{}", c.tpls.len()));
             let f = graph_facts(c);
             if f.extends_cycle {
@@ -1118,7 +1130,7 @@ fn main() {
                     }
                 }
             }
-            if k == 0 || (i + 1 == total_cases) {
+            if k == 0 && lo == 0 {
                 report.sample(serde_json::json!({
                     "templates": c.tpls.iter().map(|t| (t.name.clone(), t.source())).collect::<Vec<_>>(),
                     "prefixes": c.prefixes, "implementation": imp, "model": model.get(k), "renders": renders,
@@ -1127,6 +1139,48 @@ fn main() {
         }
         lo = hi;
     }
+    done_before += total_cases;
+    }
+    report.exhaustive = n_exh as u64 == p.total;
+    report.notes.push(format!("exhaustive enumeration: {} sets over {} templates; random stream: {} sets; all in worker processes, {:.1} s", p.total, p.n, rnd_total, t0.elapsed().as_secs_f64()));
+
+    // culprits: sets on which a worker died or hung
+    let mut n_culprits = 0u64;
+    {
+        for (k, (is_exh, idx, stage, status)) in culprits.iter().enumerate() {
+            let is_exh = *is_exh;
+            n_culprits += 1;
+            report.count(&format!("worker-death.{stage}"));
+            if report.violations.len() >= 6 {
+                continue;
+            }
+            let c = case_of(&mut RandomGen::new(quick, env.seed), is_exh, *idx);
+            let n = c.tpls.len();
+            // shrink (in child processes) while the engine keeps dying; only the first few, a
+            // stack overflow per probe is slow
+            let dies = |d: &Case| -> bool {
+                match stage.as_str() {
+                    "reg" => safe_register(d).starts_with("died"),
+                    "hist" => (0..d.tpls.len()).any(|x| safe_two_step(d, x).is_some_and(|r| r.starts_with("died"))),
+                    _ => false,
+                }
+            };
+            let small = if k < 2 && stage != "render" && dies(&c) { shrink(c.clone(), &dies) } else { c.clone() };
+            let imp = if stage == "reg" { format!("died {status}") } else { safe_register(&small) };
+            let f = graph_facts(&small);
+            let summary = match stage.as_str() {
+                "reg" => format!(
+                    "registration must end in Ok or Err ({}): the engine did not return — worker {status} while registering set #{idx} ({n} templates; graph: {f:?})",
+                    if f.include_cycle { "here Err(CircularInclude)" } else if f.extends_cycle { "here Err(CircularExtend)" } else { "every shape of graph" }
+                ),
+                "hist" => format!("registration did not return — worker {status} while re-registering one template of set #{idx} last (graph: {f:?})"),
+                _ => format!("an accepted set does not render finitely: worker {status} on set #{idx}"),
+            };
+            report.violation("property", summary, replay_json(&small, &imp, serde_json::json!({"worker": status, "stage": stage, "stream": if is_exh { "exhaustive" } else { "random" }, "index": idx})));
+        }
+    }
+    report.oracle_failures += n_culprits;
+
     report.oracle_failures += n_oracle_fails + n_hist_fails;
     for (c, x, imp, r2) in hist_fails.iter().take(3) {
         // shrink while the two ways of reaching the set keep answering differently (and keep
